@@ -146,6 +146,7 @@ def evaluate(ctx, triples, with_model=True):
         out = lean.run_driver("Val", lines)
         m_unite, m_beq, m_heq, d_ops, d_pair = out[0::5], out[1::5], out[2::5], out[3::5], out[4::5]
     spec_lines, spec_ref = [], []
+    subst_jobs = []
     for i, (a, b, c) in enumerate(triples):
         case = {"a": V.ty_sexp(a), "b": V.ty_sexp(b), "c": V.ty_sexp(c), "ops": [a, b, c]}
         ctx.count(1, **{"a_" + a[0]: 1})
@@ -241,7 +242,16 @@ def evaluate(ctx, triples, with_model=True):
                     break
         # ---- substitution laws (implementation only; TypeVar-bearing values are outside the Lean terms)
         if i % 3 == 0:
-            subst_laws(ctx, rng, a, b, case, conforms)
+            job = subst_prepare(ctx, rng, a, b, case, conforms)
+            if job is not None:
+                subst_jobs.append(job)
+    if subst_jobs:
+        souts = None
+        if with_model:
+            flat = lean.run_driver("Val", [l for j in subst_jobs for l in subst_lines(j)])
+            souts = [flat[3 * k:3 * k + 3] for k in range(len(subst_jobs))]
+        for k, job in enumerate(subst_jobs):
+            subst_finish(ctx, job, souts[k] if souts else None)
     if with_model and spec_lines:
         out = lean.run_driver("Val", spec_lines)
         for l, m, r in zip(spec_lines, out, spec_ref):
@@ -250,52 +260,81 @@ def evaluate(ctx, triples, with_model=True):
                 ctx.disagree("spec", l, "member=%s" % r, "mem=%s" % m)
 
 
-_TV = None
+def plant(rng, t, p=0.35):
+    """Replace random leaves of a closed term by type variables 0 / 1."""
+    k = t[0]
+    if k in ("typed", "known", "newtype", "subclass") and rng.random() < p:
+        return ("tvar", rng.choice([0, 0, 1]))
+    if k in ("generic", "seq"):
+        return (k, t[1], [("many", plant(rng, m[1], p)) if m[0] == "many" else plant(rng, m, p) for m in t[2]])
+    if k == "union":
+        return ("union", [plant(rng, x, p) for x in t[1]])
+    if k == "annotated":
+        return ("annotated", plant(rng, t[1], p))
+    return t
 
 
-def subst_laws(ctx, rng, a, b, case, conforms):
-    """a, b are closed; build open values by planting TypeVarValues in place of random leaves."""
-    global _TV
-    from typing import TypeVar
-    from pyanalyze.value import TypeVarValue, TypedValue, KnownValue, unite_values, MultiValuedValue, GenericValue, SequenceValue, AnnotatedValue
-    if _TV is None:
-        _TV = [TypeVar("T0"), TypeVar("T1")]
-    T0, T1 = _TV
+def has_tvar(t):
+    return any(s[0] == "tvar" for s in subterms(t))
+
+
+def subst_prepare(ctx, rng, a, b, case, conforms_outer):
+    """Phase 1: choose the open terms and the map; returns a job or None."""
     ctx.tag("subst_instances")
-    tvmap = {T0: TypedValue(int), T1: KnownValue("s")}
+    oa, ob = G.norm_term(plant(rng, a)), G.norm_term(plant(rng, b))
+    if "many" in (oa[0], ob[0]):
+        return None
+    m = {0: G.norm_term(G.gen_ty(rng, 1)), 1: G.norm_term(G.gen_ty(rng, 1))}
+    if any(v[0] == "many" for v in m.values()):
+        return None
+    if rng.random() < 0.4:
+        m[0] = ("typed", G.INT)  # makes collapses with existing `int` members likely
+    msexp = "(" + " ".join("(%d %s)" % (i, V.ty_sexp(v)) for i, v in m.items()) + ")"
+    return dict(a=a, oa=oa, ob=ob, m=m, msexp=msexp, conforms=conforms_outer,
+                case=dict(case, open_a=V.ty_sexp(oa), open_b=V.ty_sexp(ob), tvmap=msexp))
+
+
+def subst_lines(job):
+    return ["subst %s %s" % (job["msexp"], V.ty_sexp(job["oa"])), "subst %s %s" % (job["msexp"], V.ty_sexp(job["ob"])),
+            "d14subst %s %s %s" % (job["msexp"], V.ty_sexp(job["oa"]), V.ty_sexp(job["ob"]))]
+
+
+def subst_finish(ctx, job, out):
+    """Phase 2: correspondence with the Lean `subst` (out = the three driver lines, or None) and the three laws."""
+    from pyanalyze.value import unite_values, TypeVarValue
+    oa, ob, scase, conforms = job["oa"], job["ob"], job["case"], job["conforms"]
+    tvmap = {V.TYPEVARS[i]: val(v) for i, v in job["m"].items()}
+    classes = []
+    try:
+        sa = val(oa).substitute_typevars(tvmap)
+        sb = val(ob).substitute_typevars(tvmap)
+    except Exception as e:
+        ctx.candidate(dict(scase, law="total"), "substitute_typevars raised %r" % (e,), cls=None, conforms=True, stream="law-total")
+        return
+    if out is not None:
+        for o_, s_, mm in ((oa, sa, out[0]), (ob, sb, out[1])):
+            ctx.corr("subst")
+            d = dec(s_)
+            iu = V.ty_sexp(d) if not isinstance(d, str) else d
+            if iu != mm:
+                conforms = False
+                ctx.disagree("subst", dict(scase, term=V.ty_sexp(o_)), iu, mm)
+        classes = [] if out[2] in ("-", "bad-op") else out[2].split(",")
 
     def cand(what, law):
-        ctx.candidate(dict(case, law=law), what, cls=None, conforms=conforms, stream="law-" + law)
+        ctx.candidate(dict(scase, law=law), what, cls=classes[0] if classes else None, conforms=conforms, stream="law-" + law)
 
     try:
-        va, vb = val(a), val(b)
-        # identity on closed values
+        va = val(job["a"])
         if not (va.substitute_typevars(tvmap) == va):
             cand("substitute_typevars changed a value without type variables", "subst-closed")
-
-        def plant(t, which):
-            """Value built from term t with every `typed int` leaf replaced by TypeVarValue(which)."""
-            k = t[0]
-            if t == ("typed", G.INT):
-                return TypeVarValue(which)
-            if k == "generic":
-                return GenericValue(V.CLASSES[t[1]], [plant(x, which) for x in t[2]])
-            if k == "seq":
-                return SequenceValue(V.CLASSES[t[1]], [(True, plant(m[1], which)) if m[0] == "many" else (False, plant(m, which)) for m in t[2]])
-            if k == "union":
-                return MultiValuedValue([plant(x, which) for x in t[1]]) if t[1] else val(t)
-            if k == "annotated":
-                return AnnotatedValue(plant(t[1], which), [KnownValue("meta")])
-            return val(t)
-
-        oa, ob = plant(a, T0), plant(b, T0)
-        # replaces every occurrence: planting T0 at the `int` leaves then substituting T0 := int gives back a
-        if not (oa.substitute_typevars({T0: TypedValue(int)}) == va):
-            cand("substituting T:=int into a[int:=T] does not give a back", "subst-replaces")
-        left = unite_values(oa, ob).substitute_typevars({T0: TypedValue(int)})
-        right = unite_values(oa.substitute_typevars({T0: TypedValue(int)}), ob.substitute_typevars({T0: TypedValue(int)}))
-        if not (left == right) and not (unite_values(left) == unite_values(right)):
-            cand("substitution does not commute with uniting", "subst-unite")
+        for s_ in (sa, sb):
+            if any(isinstance(x, TypeVarValue) and x.typevar in tvmap for x in s_.walk_values()):
+                cand("a mapped type variable survives the substitution", "subst-replaces")
+        left = unite_values(val(oa), val(ob)).substitute_typevars(tvmap)
+        right = unite_values(sa, sb)
+        if not (left == right):
+            cand("substitution does not commute with uniting: subst(unite(a, b)) != unite(subst a, subst b)", "subst-unite")
     except Exception as e:
         cand("exception in substitution laws: %r" % (e,), "total")
 
